@@ -363,6 +363,10 @@ fn bits_eq(a: &V, b: &V) -> bool {
 }
 
 fn c13_space<K: Kit>(spec: &Spec, lat: &[V], ts: &[f64], rep: &mut Report, label: &str) {
+    // component by component also for parameters outside [0,1] (the composition law does not depend on t)
+    let mut ts_ext: Vec<f64> = ts.to_vec();
+    ts_ext.extend([-0.5, 1.5, 1.0 + 1e-9]);
+    let ts: &[f64] = &ts_ext;
     let sp = K::build(spec);
     let (parts, w) = as_parts(spec).unwrap();
     let kit = K::NAME;
